@@ -9,6 +9,16 @@ CHECKS = {
     text="Exploration: all literal lists up to length 5 (quick) / 7 (thorough) with every polarity pattern, container type, operator and constant -2..n+2 are executed for CNF and OPB parents and decided over all 2^n assignments; mappings up to 3x3 with every sparse domain up to 6 possible pairs, binary mappings up to 3 -> 11; normalize_opb on 20k/200k seeded constraints.  Held means: no executed call disagreed with the arithmetic condition.",
     note="Trusts vmon/tt.py (self-checked against a naive evaluator on every start) and, for mappings, the group's index->variable call (C11).  Says nothing about lengths beyond the enumerated bound.",
     design="5/C04"),
+ "C13": dict(
+    technique="runtime monitoring: result shape + planted assignments + decoded linear system vs truth table, against a reference enumeration of compatible clauses/parities; bounded RNG adversary forces the dense sampler",
+    text="Exploration: RandomKCNF/RandomKXOR for k in 0..4, n in 0..6, m from 0 to max+2 (every m in thorough), 0..3 planted total assignments, seeded and adversarial randomness (sparse sampler driven to exhaustion so the dense path is observed), plus the randkcnf/randkxor command lines.  Each call is judged for counts, distinctness, width, planted assignments, model set = solutions of the decoded system and 'ValueError exactly when infeasible'.",
+    note="Trusts the reference enumeration of compatible clauses (itertools) and vmon/tt.py.  Parities with k=0 are judged by clause count only.  Adversarial RNG answers are legal values, i.e. positive-probability outcomes.",
+    design="5/C13"),
+ "C16": dict(
+    technique="runtime monitoring: history + executable set model compared on every public view after every operation; icontract class invariants on Graph/DirectedGraph/BipartiteGraph",
+    text="Exploration: all operation histories of length <= 2 (quick) / <= 3 (thorough) over small alphabets with out-of-range arguments, plus seeded random histories of up to 60 operations from sizes 0..6, on the four graph classes and named constructions.  After every operation every public view (counts, edge listing, membership, neighbour lists, degrees, is_dag) is compared with a set model; refusals must leave no trace; networkx round trip at the end of every history.",
+    note="Trusts networkx for the conversion comparison.  A refused insertion is expected to raise (any exception type).  The icontract invariant records and never raises through the code under test.",
+    design="5/C16"),
 }
 
 NOT_APPLICABLE = []
